@@ -625,31 +625,79 @@ Qed.
 Lemma okpaths_app sg a b : okpaths sg (a ++ b) -> okpaths sg a /\ okpaths sg b.
 Proof. intro H. split; intros p Hp; apply H; apply in_or_app; auto. Qed.
 
-Lemma eval_segs_ext c sg l : forall st,
-  okpaths sg (flat_map (fun s => match s with SSub q => [of_fpath q] | _ => [] end) l) ->
-  ext st (snd (eval_segs c sg l st)).
+(* nested paths: induction on the size of a path *)
+Fixpoint psize (p : path) : nat :=
+  match p with
+  | Path _ segs =>
+      S ((fix go (l : list seg) : nat :=
+            match l with
+            | [] => 0
+            | SSub q :: l' => psize q + go l'
+            | _ :: l' => go l'
+            end) segs)
+  end.
+Definition segs_size (l : list seg) : nat :=
+  (fix go (l : list seg) : nat :=
+     match l with [] => 0 | SSub q :: l' => psize q + go l' | _ :: l' => go l' end) l.
+Definition segs_paths (l : list seg) : list path :=
+  (fix go (l : list seg) : list path :=
+     match l with [] => [] | SSub q :: l' => all_paths q ++ go l' | _ :: l' => go l' end) l.
+Definition eval_segs (c : ctx) (sg : list str) (l : list seg) (st : dstate) : list value * dstate :=
+  (fix go (l : list seg) (st : dstate) : list value * dstate :=
+     match l with
+     | [] => ([], st)
+     | s :: l' =>
+         let '(k, sa) := match s with
+                         | SKey x => (VStr x, st)
+                         | SIdx i => (VInt i, st)
+                         | SSub q => eval_path c sg q st
+                         end in
+         let '(ks, sb) := go l' sa in
+         (k :: ks, sb)
+     end) l st.
+
+Lemma psize_eq r segs : psize (Path r segs) = S (segs_size segs). Proof. reflexivity. Qed.
+Lemma all_paths_eq r segs : all_paths (Path r segs) = Path r segs :: segs_paths segs. Proof. reflexivity. Qed.
+Lemma eval_path_eq c sg r segs st :
+  eval_path c sg (Path r segs) st =
+  let '(ks, st1) := eval_segs c sg segs st in
+  let '(v0, g) := lookup c st1 r in
+  (fold_left get_key ks v0, emit (ERead (Path r segs) g (mem r sg)) st1).
+Proof. reflexivity. Qed.
+
+Lemma eval_path_ext c sg : forall n p, psize p <= n -> forall st,
+  okpaths sg (all_paths p) -> ext st (snd (eval_path c sg p st)).
 Proof.
-  induction l as [|s l IH]; simpl; intros st H; [apply ext_refl|].
-  apply okpaths_app in H. destruct H as [Hs Hl].
-  assert (E1 : ext st (snd (match s with
-                            | SKey x => (VStr x, st)
-                            | SIdx i => (VInt i, st)
-                            | SSub q => eval_fpath c sg q st
-                            end))).
-  { destruct s as [x|i|q]; simpl; try apply ext_refl.
-    unfold eval_fpath. destruct (lookup c st (fp_root q)) as [v0 g]. simpl. apply emit_ext.
-    apply (Hs (of_fpath q)). left; reflexivity. }
-  destruct (match s with SKey x => (VStr x, st) | SIdx i => (VInt i, st) | SSub q => eval_fpath c sg q st end) as [k st1].
-  simpl in E1. pose proof (IH st1 Hl) as E2. destruct (eval_segs c sg l st1) as [ks st2]. simpl in *.
-  eapply ext_trans; eassumption.
+  induction n as [|n IH]; intros [r segs] Hn st Hp; [rewrite psize_eq in Hn; lia|].
+  rewrite psize_eq in Hn. rewrite all_paths_eq in Hp. rewrite eval_path_eq.
+  assert (Hs : forall l st0, segs_size l <= n -> okpaths sg (segs_paths l) -> ext st0 (snd (eval_segs c sg l st0))).
+  { induction l as [|s l IHl]; intros st0 Hl Hq; [apply ext_refl|].
+    change (eval_segs c sg (s :: l) st0) with
+      (let '(k, sa) := match s with SKey x => (VStr x, st0) | SIdx i => (VInt i, st0) | SSub q => eval_path c sg q st0 end in
+       let '(ks, sb) := eval_segs c sg l sa in (k :: ks, sb)).
+    destruct s as [x|i|q].
+    - change (segs_size (SKey x :: l)) with (segs_size l) in Hl. change (segs_paths (SKey x :: l)) with (segs_paths l) in Hq.
+      pose proof (IHl st0 Hl Hq) as E. destruct (eval_segs c sg l st0) as [ks sb]. exact E.
+    - change (segs_size (SIdx i :: l)) with (segs_size l) in Hl. change (segs_paths (SIdx i :: l)) with (segs_paths l) in Hq.
+      pose proof (IHl st0 Hl Hq) as E. destruct (eval_segs c sg l st0) as [ks sb]. exact E.
+    - change (segs_size (SSub q :: l)) with (psize q + segs_size l) in Hl.
+      change (segs_paths (SSub q :: l)) with (all_paths q ++ segs_paths l) in Hq.
+      apply okpaths_app in Hq. destruct Hq as [Hq1 Hq2].
+      assert (E1 : ext st0 (snd (eval_path c sg q st0))) by (apply IH; [lia | exact Hq1]).
+      destruct (eval_path c sg q st0) as [k sa]. simpl in E1.
+      assert (E2 : ext sa (snd (eval_segs c sg l sa))) by (apply IHl; [lia | exact Hq2]).
+      destruct (eval_segs c sg l sa) as [ks sb]. simpl in *. eapply ext_trans; eassumption. }
+  assert (E1 : ext st (snd (eval_segs c sg segs st))).
+  { apply Hs; [lia|]. intros q Hq. apply Hp. right. exact Hq. }
+  destruct (eval_segs c sg segs st) as [ks st1]. simpl in E1.
+  destruct (lookup c st1 r) as [v0 g]. simpl. eapply ext_trans; [exact E1|]. apply emit_ext.
+  apply (Hp (Path r segs)). left; reflexivity.
 Qed.
 
 Lemma eval_atom_ext c sg a st : okpaths sg (atom_paths a) -> ext st (snd (eval_atom c sg a st)).
 Proof.
   destruct a as [v|p]; simpl; intro H; [apply ext_refl|].
-  assert (Hsub : okpaths sg (sub_paths p)) by (intros q Hq; apply H; right; exact Hq).
-  pose proof (eval_segs_ext c sg (p_segs p) st Hsub) as E1. destruct (eval_segs c sg (p_segs p) st) as [ks st1]. simpl in E1.
-  destruct (lookup c st1 (p_root p)) as [v0 g]. simpl. eapply ext_trans; [exact E1|]. apply emit_ext. apply H. left; reflexivity.
+  apply (eval_path_ext c sg (psize p) p (le_n _) st H).
 Qed.
 
 Lemma eval_atoms_ext c sg l : forall st, okpaths sg (flat_map atom_paths l) -> ext st (snd (eval_atoms c sg l st)).
@@ -724,6 +772,50 @@ Proof.
     eapply ext_trans; eassumption.
 Qed.
 
+Lemma halt_ext st : ext st (halt st).
+Proof. unfold halt. destruct (d_status st); split; auto. Qed.
+
+Lemma eval_loop_ext c sg x it la st :
+  (forall e, In e (iter_exprs it) -> okpaths sg (expr_paths e)) ->
+  okpaths sg (flat_map atom_paths (la_atoms la)) ->
+  ext st (snd (eval_loop c sg x it la st)).
+Proof.
+  intros Hit Hla. unfold eval_loop.
+  pose proof (eval_iter_ext c sg it st Hit) as E0. destruct (eval_iter c sg it st) as [items st1]. simpl in E0.
+  unfold la_atoms in Hla. rewrite !flat_map_app in Hla. apply okpaths_app in Hla. destruct Hla as [Hlim Hrest].
+  apply okpaths_app in Hrest. destruct Hrest as [Hoff _].
+  assert (E1 : ext st1 (snd (match la_limit la with
+                             | None => (Some None, st1)
+                             | Some a => let '(v, s) := eval_atom c sg a st1 in
+                                         (match to_int_strict v with Some z => Some (Some z) | None => None end, s)
+                             end))).
+  { destruct (la_limit la) as [a|]; simpl; [|apply ext_refl].
+    simpl in Hlim. rewrite app_nil_r in Hlim.
+    pose proof (eval_atom_ext c sg a st1 Hlim) as E. destruct (eval_atom c sg a st1) as [v s]. exact E. }
+  destruct (match la_limit la with
+            | None => (Some None, st1)
+            | Some a => let '(v, s) := eval_atom c sg a st1 in
+                        (match to_int_strict v with Some z => Some (Some z) | None => None end, s)
+            end) as [lim st2]. simpl in E1.
+  destruct lim as [lim|]; simpl; [|eapply ext_trans; [exact E0|]; eapply ext_trans; [exact E1 | apply halt_ext]].
+  assert (E2 : ext st2 (snd (match la_offset la with
+                             | None => (Some 0%Z, st2)
+                             | Some OffContinue => (Some (stop_lookup x it (d_stop st2)), st2)
+                             | Some (OffAtom a) => let '(v, s) := eval_atom c sg a st2 in (to_int_strict v, s)
+                             end))).
+  { destruct (la_offset la) as [[a|]|]; simpl; try apply ext_refl.
+    simpl in Hoff. rewrite app_nil_r in Hoff.
+    pose proof (eval_atom_ext c sg a st2 Hoff) as E. destruct (eval_atom c sg a st2) as [v s]. exact E. }
+  destruct (match la_offset la with
+            | None => (Some 0%Z, st2)
+            | Some OffContinue => (Some (stop_lookup x it (d_stop st2)), st2)
+            | Some (OffAtom a) => let '(v, s) := eval_atom c sg a st2 in (to_int_strict v, s)
+            end) as [off st3]. simpl in E2.
+  destruct off as [start|]; simpl.
+  - eapply ext_trans; [exact E0|]. eapply ext_trans; [exact E1|]. eapply ext_trans; [exact E2|]. split; auto.
+  - eapply ext_trans; [exact E0|]. eapply ext_trans; [exact E1|]. eapply ext_trans; [exact E2 | apply halt_ext].
+Qed.
+
 Lemma eval_params_ext c sg sgd (b : list (str * option (bool * atom))) : forall acc st,
   (forall k (isdef : bool) a, In (k, Some (isdef, a)) b -> okpaths (if isdef then sgd else sg) (atom_paths a)) ->
   ext st (snd (eval_params c sg sgd b acc st)).
@@ -782,6 +874,8 @@ Lemma inv_exhaust st : inv st -> inv (exhaust st).
 Proof. intros [A B]. unfold exhaust. destruct (d_status st); split; assumption. Qed.
 Lemma inv_fresh st : inv st -> inv (d_fresh st).
 Proof. intros [A B]. split; [exact A | intros m mc H; discriminate]. Qed.
+Lemma inv_call st : inv st -> inv (d_call st).
+Proof. intros [A B]. split; assumption. Qed.
 Lemma inv_restore saved st : inv saved -> inv st -> inv (d_restore saved st).
 Proof. intros [A B] [C D]. split; assumption. Qed.
 
@@ -909,8 +1003,12 @@ Proof.
       apply inv_assign. apply IHl; [exact (H_children _ _ Hc eq_refl) | exact Hi0].
     + (* for *)
       pose proof (H_children _ _ Hc eq_refl) as Hch. simpl n_children in Hch.
-      pose proof (eval_iter_ext c sg it st0 (iter_exprs_ok sg _ it Hc (fun e He => He))) as E.
-      destruct (eval_iter c sg it st0) as [its st1]. simpl in E.
+      assert (Hit : forall e, In e (iter_exprs it) -> okpaths sg (expr_paths e)).
+      { intros e He. apply (proj1 (H_exprs _ _ e Hc (in_or_app _ _ _ (or_introl He)))). }
+      assert (Hla : okpaths sg (flat_map atom_paths (la_atoms la))).
+      { apply (plain_list_ok sg (NFor x it la body els)); [exact Hc|]. intros a Ha. simpl. apply in_or_app. right. apply in_map. exact Ha. }
+      pose proof (eval_loop_ext c sg x it la st0 Hit Hla) as E.
+      destruct (eval_loop c sg x it la st0) as [its st1]. simpl in E.
       pose proof (ext_inv _ _ E Hi0) as Hi1.
       destruct its as [|v0 items].
       * destruct (flatM (assigned P f) body) as [a| |] eqn:Ea; [|apply inv_exhaust; exact Hi1|apply inv_exhaust; exact Hi1].
@@ -918,10 +1016,18 @@ Proof.
       * apply iter_inv; [|exact Hi1]. intros item s Hs. eapply IHl0; [exact Hch | exact Hs].
     + (* tablerow *)
       pose proof (H_children _ _ Hc eq_refl) as Hch. simpl n_children in Hch.
-      pose proof (eval_iter_ext c sg it st0 (iter_exprs_ok sg _ it Hc (fun e He => He))) as E.
-      destruct (eval_iter c sg it st0) as [its st1]. simpl in E.
+      assert (Hit : forall e, In e (iter_exprs it) -> okpaths sg (expr_paths e)).
+      { intros e He. apply (proj1 (H_exprs _ _ e Hc (in_or_app _ _ _ (or_introl He)))). }
+      assert (Hla : okpaths sg (flat_map atom_paths (la_atoms la))).
+      { apply (plain_list_ok sg (NTablerow x it la body)); [exact Hc|]. intros a Ha. simpl. apply in_or_app. right. apply in_map. exact Ha. }
+      pose proof (eval_loop_ext c sg x it la st0 Hit Hla) as E.
+      destruct (eval_loop c sg x it la st0) as [its st1]. simpl in E.
       pose proof (ext_inv _ _ E Hi0) as Hi1.
-      apply iter_inv; [|exact Hi1]. intros item s Hs. apply IHl; [exact Hch | exact Hs].
+      assert (Hi2 : inv (match la_cols la with Some a => snd (eval_atom c sg a st1) | None => st1 end)).
+      { destruct (la_cols la) as [a|] eqn:Hcols; [|exact Hi1]. eapply ext_inv; [|exact Hi1]. apply eval_atom_ext.
+        intros p Hp g. apply Hla. unfold la_atoms. rewrite Hcols. rewrite !flat_map_app. apply in_or_app. right.
+        apply in_or_app. right. simpl. rewrite app_nil_r. exact Hp. }
+      apply iter_inv; [|exact Hi2]. intros item s Hs. apply IHl; [exact Hch | exact Hs].
     + (* if / unless *)
       pose proof (H_children _ _ Hc eq_refl) as Hch. simpl n_children in Hch.
       assert (Hp : okpaths sg (flat_map atom_paths (cond_atoms c0))).
@@ -985,7 +1091,7 @@ Proof.
       pose proof (eval_params_ext c sg (mc_sigma mc) bound [(s_kwargs, VMap kvs); (s_args, VList xs)] st2 Hp3) as E3.
       destruct (eval_params c sg (mc_sigma mc) bound [(s_kwargs, VMap kvs); (s_args, VList xs)] st2) as [ns st3]. simpl in E3.
       assert (Hi3 : inv st3) by (eapply ext_inv; [exact E3|]; eapply ext_inv; [exact E2|]; eapply ext_inv; eassumption).
-      apply inv_restore; [exact Hi3|]. apply IHl; [exact (H_children _ _ Hmc eq_refl) | apply inv_fresh; exact Hi3].
+      apply inv_restore; [exact Hi3|]. apply IHl; [exact (H_children _ _ Hmc eq_refl) | apply inv_call; exact Hi3].
     + (* include *)
       destruct (c_noinc c); [apply inv_halt; exact Hi0|].
       destruct (alookup p (pg_tpls P)) as [body|] eqn:Hb; [|apply inv_halt; exact Hi0].
@@ -1288,13 +1394,13 @@ Definition q_v : str := [118]%N.
 Definition q_xs : str := [120; 115]%N.
 Definition q_go : str := [103; 111]%N.
 Definition q_upcase : str := [117; 112; 99; 97; 115; 101]%N.
-Definition pv (s : str) : path := {| p_root := s; p_segs := [] |}.
+Definition pv (s : str) : path := Path s [].
 Definition outv (s : str) : node := NOutput (plain (AVar (pv s))).
 
 (* for x in xs: include p1 / include p1, with p1 = x *)
 Definition W_seen : prog :=
   {| pg_root := q_main;
-     pg_tpls := [(q_main, [NFor q_x (IPath (pv q_xs)) [NInclude q_p1 None []] []; NInclude q_p1 None []]);
+     pg_tpls := [(q_main, [NFor q_x (IPath (pv q_xs)) la_none [NInclude q_p1 None []] []; NInclude q_p1 None []]);
                  (q_p1, [NText; outv q_x])] |}.
 Definition W_seen_data : list (str * value) := [(q_xs, VList [VInt 1; VInt 2]); (q_x, VStr [71%N])].
 
@@ -1356,26 +1462,93 @@ Qed.
 Definition q_a : str := [97]%N.
 Definition q_b : str := [98]%N.
 Definition q_k : str := [107]%N.
+Definition q_c0 : str := [99]%N.
 Definition W_wide : prog :=
   {| pg_root := q_main;
      pg_tpls := [(q_main,
         [NIf true (CTruthy (AVar (pv q_go))) [outv q_x] [(CEq (AVar (pv q_v)) (ALit (VInt 1)), [outv q_y])] [outv q_z];
          NCase (AVar (pv q_v)) [([ALit (VInt 1); ALit (VInt 1)], [outv q_a])] [outv q_b];
-         NTablerow q_x (IRange (ALit (VInt 1)) (AVar (pv q_y))) [outv q_x];
+         NTablerow q_x (IRange (ALit (VInt 1)) (AVar (pv q_y))) la_none [outv q_x];
          NLiquid [NCycle None [AVar (pv q_a)];
-                  NEcho (plain (AVar {| p_root := q_a; p_segs := [SSub {| fp_root := q_b; fp_segs := [FKey q_k] |}] |}))];
+                  NEcho (plain (AVar (Path q_a [SSub (Path q_b [SKey q_k; SSub (pv q_c0)])])))];
          NDecrement q_z; outv q_z])] |}.
 Definition W_wide_data : list (str * value) := [(q_go, VBool true); (q_v, VInt 1); (q_y, VInt 2); (q_b, VMap [(q_k, VStr q_k)])].
 
 Lemma wide_language_example :
   exists A, analyze W_wide 20 = Ok A /\
     (* the path used as a segment is reported on its own, and read on its own *)
-    In {| p_root := q_b; p_segs := [SKey q_k] |} (a_vars A) /\
-    In (ERead {| p_root := q_b; p_segs := [SKey q_k] |} true false) (d_trace (exec_prog W_wide 20 W_wide_data)) /\
+    In (Path q_b [SKey q_k; SSub (pv q_c0)]) (a_vars A) /\
+    In (ERead (Path q_b [SKey q_k; SSub (pv q_c0)]) true false) (d_trace (exec_prog W_wide 20 W_wide_data)) /\
     (* unless go (true) falls to the elsif v == 1: y is read; the case value met twice renders a twice *)
     length (filter (event_eqb (ERead (pv q_a) false false)) (d_trace (exec_prog W_wide 20 W_wide_data))) = 3 /\
     d_status (exec_prog W_wide 20 W_wide_data) = Running.
 Proof.
   eexists. split; [vm_compute; reflexivity|]. split; [vm_compute; tauto|]. split; [vm_compute; tauto|].
   split; vm_compute; reflexivity.
+Qed.
+
+(* the arguments of a loop are among the expressions the walk analyses, whichever of the others are present *)
+Lemma loop_arguments_analysed x it la body els a :
+  la_limit la = Some a \/ la_offset la = Some (OffAtom a) \/ la_cols la = Some a ->
+  In (plain a) (n_exprs (NFor x it la body els)) /\ In (plain a) (n_exprs (NTablerow x it la body)).
+Proof.
+  intro H.
+  assert (Hin : In a (la_atoms la)).
+  { unfold la_atoms. destruct H as [H|[H|H]]; rewrite H.
+    - apply in_or_app; left; left; reflexivity.
+    - apply in_or_app; right; apply in_or_app; left; left; reflexivity.
+    - apply in_or_app; right; apply in_or_app; right; left; reflexivity. }
+  split; simpl; apply in_or_app; right; apply in_map; exact Hin.
+Qed.
+
+(* a loop with limit, offset and cols given as paths, the limit unconvertible: the render fails at the limit,
+   yet all three are reported; with a convertible limit all three are read *)
+Definition q_lim : str := [108; 105; 109]%N.
+Definition q_off : str := [111; 102; 102]%N.
+Definition q_c : str := [99]%N.
+Definition W_loop : prog :=
+  {| pg_root := q_main;
+     pg_tpls := [(q_main,
+        [NTablerow q_x (IPath (pv q_xs))
+           {| la_limit := Some (AVar (pv q_lim)); la_offset := Some (OffAtom (AVar (pv q_off))); la_reversed := true;
+              la_cols := Some (AVar (pv q_c)) |} [outv q_x];
+         NFor q_x (IPath (pv q_xs)) {| la_limit := None; la_offset := Some OffContinue; la_reversed := false; la_cols := None |}
+           [outv q_x] []])] |}.
+Definition W_loop_data (lim : value) : list (str * value) :=
+  [(q_xs, VList [VInt 1; VInt 2; VInt 3]); (q_lim, lim); (q_off, VInt 1); (q_c, VInt 2)].
+
+Lemma loop_arguments_example :
+  exists A, analyze W_loop 20 = Ok A /\
+    In (pv q_lim) (a_vars A) /\ In (pv q_off) (a_vars A) /\ In (pv q_c) (a_vars A) /\
+    (* limit 1, offset 1: the tablerow renders item 2 and stops at index 2; the for loop continues with item 3 *)
+    map (fun e => match e with ERead p _ _ => p_root p | _ => [] end)
+        (filter (fun e => match e with ERead _ _ _ => true | _ => false end) (rev (d_trace (exec_prog W_loop 20 (W_loop_data (VInt 1))))))
+      = [q_xs; q_lim; q_off; q_c; q_x; q_xs; q_x] /\
+    d_status (exec_prog W_loop 20 (W_loop_data (VStr q_x))) = Halted.
+Proof.
+  eexists. split; [vm_compute; reflexivity|]. repeat split; vm_compute; tauto.
+Qed.
+
+(* a[b.k[c]]: the path at every level is reported on its own and read on its own, innermost first *)
+Lemma nested_paths_example :
+  exists A, analyze W_wide 20 = Ok A /\
+    forallb (fun p => existsb (path_eqb p) (a_vars A))
+            [pv q_c0; Path q_b [SKey q_k; SSub (pv q_c0)]; Path q_a [SSub (Path q_b [SKey q_k; SSub (pv q_c0)])]] = true /\
+    map (fun e => match e with ERead p _ _ => p_root p | _ => [] end)
+        (firstn 4 (filter (fun e => match e with ERead _ _ _ => true | _ => false end)
+                          (d_trace (exec_prog W_wide 20 W_wide_data))))
+      = [q_z; q_a; q_b; q_c0].
+Proof.
+  eexists. split; [vm_compute; reflexivity|]. split; vm_compute; reflexivity.
+Qed.
+
+(* the walk analyses a path used as a segment, and with it every path nested in that one, at any depth *)
+Lemma nested_paths_analysed r segs q : In (SSub q) segs -> incl (all_paths q) (atom_paths (AVar (Path r segs))).
+Proof.
+  intro H. unfold atom_paths. rewrite all_paths_eq. intros x Hx. right.
+  induction segs as [|s l IH]; [destruct H|].
+  destruct H as [->|H].
+  - change (segs_paths (SSub q :: l)) with (all_paths q ++ segs_paths l). apply in_or_app. left. exact Hx.
+  - specialize (IH H). destruct s as [k|i|q']; try exact IH.
+    change (segs_paths (SSub q' :: l)) with (all_paths q' ++ segs_paths l). apply in_or_app. right. exact IH.
 Qed.
